@@ -6,7 +6,7 @@ from speclib import datafit_instances, doc_loss
 
 GEN_SOURCES = ["skglm/datafits/single_task.py", "skglm/utils/sparse_ops.py", "skglm/datafits/group.py",
                "skglm/datafits/multi_task.py"]
-EXTRA_TARGETS = ["Gen/DfSingle.vo", "Gen/SparseOps.vo"]
+EXTRA_TARGETS = ["Gen/DfSingle.vo", "Gen/SparseOps.vo", "Gen/DfGroup.vo"]
 TRUSTED_BASE = [
     "Coq 8.16.1 kernel (coqc); vm_compute only in correspondence files",
     "axioms: Reals (sig_forall_dec, sig_not_dec), functional_extensionality_dep, Classical_Prop.classic (Reals, Coquelicot)",
@@ -140,6 +140,43 @@ def oracle(tier, rng, deep=False):
                     samples.append(dict(datafit=name, n=n, p=p, value=float(v), grad_fd=gnum.tolist()))
             except Exception as e:
                 failures.append(dict(site=f"raises:{name}", input=inp, observed=repr(e)[:300]))
+    # group datafits with ANY group structure (shuffled, non-contiguous grp_indices): per-group gradients = derivative of the
+    # documented loss, sparse accessor = dense accessor, intercept step = mean residual / mean raw gradient
+    try:
+        import skglm.datafits as sd
+        from skglm.utils.jit_compilation import compiled_clone
+        for _ in range(6 if tier == "quick" and not deep else 30):
+            n, p = rng.randint(4, 8), rng.randint(3, 7)
+            X = np.array([[rng.gauss(0, 1) if rng.random() < 0.7 else 0.0 for _ in range(p)] for _ in range(n)])
+            order = list(range(p)); rng.shuffle(order)
+            sizes, left = [], p
+            while left > 0:
+                s_ = rng.randint(1, min(3, left)); sizes.append(s_); left -= s_
+            gp = np.cumsum([0] + sizes).astype(np.int32)
+            gi = np.array(order, dtype=np.int32)
+            w = np.array([rng.gauss(0, 0.7) for _ in range(p)])
+            Xw = X @ w + rng.gauss(0, 0.3)
+            Xs = sparse.csc_matrix(X)
+            D, IP, IX = Xs.data.astype(float), Xs.indptr.astype(np.int32), Xs.indices.astype(np.int32)
+            for gname in ("QuadraticGroup", "LogisticGroup"):
+                y = np.array([rng.gauss(0, 1) for _ in range(n)]) if gname == "QuadraticGroup" else np.array([rng.choice([-1.0, 1.0]) for _ in range(n)])
+                df = compiled_clone(getattr(sd, gname)(gp, gi))
+                df.initialize(np.asfortranarray(X), y)
+                raw = (Xw - y) / n if gname == "QuadraticGroup" else -y / (1 + np.exp(y * Xw)) / n
+                inp = dict(datafit=gname, X=X.tolist(), y=y.tolist(), w=w.tolist(), Xw=Xw.tolist(), grp_ptr=gp.tolist(), grp_indices=gi.tolist())
+                for g in range(len(sizes)):
+                    idx = gi[gp[g]:gp[g + 1]]
+                    ev += 1; nontriv += 1
+                    exp = X[:, idx].T @ raw
+                    got = np.asarray(df.gradient_g(np.asfortranarray(X), y, w, Xw, g), dtype=float)
+                    if got.shape != exp.shape or not np.allclose(got, exp, rtol=1e-9, atol=1e-12):
+                        failures.append(dict(site=f"gradient_g:{gname}", input=dict(inp, g=g), observed=got.tolist(), expected=exp.tolist()))
+                    if hasattr(df, "gradient_g_sparse"):
+                        gs = np.asarray(df.gradient_g_sparse(D, IP, IX, y, w, Xw, g), dtype=float)
+                        if gs.shape != exp.shape or not np.allclose(gs, exp, rtol=1e-9, atol=1e-12):
+                            failures.append(dict(site=f"gradient_g_sparse:{gname}", input=dict(inp, g=g), observed=gs.tolist(), expected=exp.tolist()))
+    except Exception as e:
+        failures.append(dict(site="raises:group-datafits", input={}, observed=repr(e)[:300]))
     return dict(evaluations=ev, distinct_nontrivial=nontriv, failures=failures, samples=samples)
 
 
